@@ -1,16 +1,13 @@
 /-
   C05 — division_connected holds exactly for labelings whose classes are connected.
 -/
+import CspuzModel.Spec.C05Defs
 import CspuzModel.Proofs.C05
 namespace Cspuz.C05
 open Cspuz Cspuz.Spec
 
-/-- Label of vertex `v` under `σ` (0 when the expression is missing / not an integer). -/
-def labOf (σ : Asg) (dv : List Expr) (v : Nat) : Int := (intAt σ dv v).getD 0
-
-/-- The label expressions range over `0..k-1` under `σ`. -/
-def InRange (σ : Asg) (dv : List Expr) (n k : Nat) : Prop :=
-  ∀ v, v < n → ∃ x, intAt σ dv v = some x ∧ 0 ≤ x ∧ x < (k : Int)
+-- `labOf` (label of a vertex under `σ`) and `InRange` (labels lie in `0..k-1`) are defined in
+-- Spec/C05Defs.lean (namespace `Cspuz.Spec`, opened above).
 
 /-- Rank/root/spanning-forest encoding, full strength: for every multigraph, every `k ≥ 1`, every list
 of well-typed integer label expressions (variables, literals, compound) whose values lie in `0..k-1`,
@@ -49,5 +46,25 @@ def statement_total : Prop :=
     ∃ p, divisionConnected g dv k roots allowEmpty prim base = .ok p
 
 theorem C05_total : statement_total := Cspuz.Proofs.C05.total
+
+/-- Non-vacuity: a concrete instance satisfies all hypotheses of `statement_aux` / `statement_prim`
+(path graph 0 — 1 — 2, labels `x0, x1, x2` with values 0, 0, 1, two groups, root of group 0 prescribed). -/
+example :
+    let g : Graph := { n := 3, edges := [(0, 1), (1, 2)] }
+    let dv : List Expr := [.ivar 0, .ivar 1, .ivar 2]
+    let σ : Asg := { b := fun _ => false, i := fun id => if id = 2 then 1 else 0 }
+    let roots : Option (List (Option Nat)) := some [some 0, none]
+    g.wf = true ∧ dv.length = g.n ∧ IntArgs 3 dv ∧ InRange σ dv g.n 2 ∧
+      (∃ p, divisionConnected g dv 2 roots false false 3 = .ok p) ∧
+      (∃ p, divisionConnected g dv 2 roots false true 3 = .ok p) := by
+  refine ⟨rfl, rfl, ?_, ?_, ⟨_, rfl⟩, ⟨_, rfl⟩⟩
+  · intro e he
+    simp only [List.mem_cons, List.not_mem_nil, or_false] at he
+    rcases he with rfl | rfl | rfl <;> exact ⟨rfl, rfl⟩
+  · intro v hv
+    match v, hv with
+    | 0, _ => exact ⟨0, rfl, by decide, by decide⟩
+    | 1, _ => exact ⟨0, rfl, by decide, by decide⟩
+    | 2, _ => exact ⟨1, rfl, by decide, by decide⟩
 
 end Cspuz.C05
